@@ -49,6 +49,8 @@ var reg = vk.Registry{
 	},
 }
 
+func init() { reg["sequence"] = vk.SequenceReplayer(reg) }
+
 func TestReplay(t *testing.T) { vk.RunReplay(t, reg) }
 
 func TestSelf(t *testing.T) {
@@ -71,8 +73,8 @@ func eval(t vk.TB, b *gen.Binding, v *ref.Vals) {
 		}
 	}
 	rec.Sample(b.Spec.Proto, ref.ToJ(b.Spec, v))
-	rec.Report(t, "layout-encode", gen.LayoutEncode(b, v))
-	rec.Report(t, "layout-decode", gen.LayoutDecode(b, v))
+	rec.ReportSeq(t, "layout-encode", gen.PCase{Vals: ref.ToJ(b.Spec, v)}, func() *vk.Violation { return gen.LayoutEncode(b, v) })
+	rec.ReportSeq(t, "layout-decode", gen.PCase{Vals: ref.ToJ(b.Spec, v)}, func() *vk.Violation { return gen.LayoutDecode(b, v) })
 }
 
 func TestLayoutPerType(t *testing.T) {
